@@ -48,6 +48,8 @@ type DeclCfg struct {
 	MultiByte    bool // multi-byte short names
 	ParserOpts   []uint
 	Handlers     bool
+	DottedCmds   bool // some command names contain a '.'
+	MultiLine    bool // some descriptions span several lines
 }
 
 var (
@@ -116,6 +118,9 @@ func (g *declGen) opt() *OptSpec {
 	}
 	if cfg.Descriptions && r.Chance(3, 4) {
 		o.Desc = "The " + w + " setting number " + strconv.Itoa(n)
+		if cfg.MultiLine && r.Chance(1, 8) {
+			o.Desc += r.Pick([]string{"\nsecond line of the description", "\n\nx = 1", "\n[Net]", "\r\nsecond = line"})
+		}
 		if r.Chance(1, 6) {
 			o.Desc += " with a rather long explanation that will need to be wrapped over several lines of the help output because it goes on"
 		}
@@ -274,6 +279,9 @@ func (g *declGen) positionals() ([]*ArgSpec, bool) {
 func (g *declGen) cmd(depth int) *CmdSpec {
 	r, cfg := g.r, g.cfg
 	c := &CmdSpec{Name: g.takeCmd(), Exec: cfg.Exec && r.Chance(5, 6)}
+	if cfg.DottedCmds && r.Chance(1, 6) {
+		c.Name = r.Pick([]string{"v1.", "net.", "x."}) + c.Name
+	}
 	if cfg.Descriptions {
 		c.Short = "The " + c.Name + " command"
 		if r.Chance(1, 3) {
